@@ -3,7 +3,7 @@
 //! judged by the same functions. A violation panics (libFuzzer saves the input).
 
 use crate::common::{Judge, Obs};
-use crate::props::{c01, c02, c10, c11, c18};
+use crate::props::{c01, c02, c04, c07, c08, c10, c11, c18};
 use crate::refcodec::{ROpt, RPacket};
 use crate::sim::{self, After, Fate, Role, Scenario, Sev};
 use arbitrary::Unstructured;
@@ -146,6 +146,36 @@ pub fn judge(target: &str, data: &[u8]) -> Judge {
         "window" => c18::judge(scratch(), &window_case(&mut u), &mut obs),
         "send" => c01::judge(scratch(), &scenario(&mut u, Role::Sender), &mut obs),
         "recv" => c02::judge(scratch(), &scenario(&mut u, Role::Receiver), &mut obs),
+        "loss" => {
+            // C04: fault fates only, at most 5 of them, conformant peer
+            let role = if u.arbitrary().unwrap_or(false) { Role::Sender } else { Role::Receiver };
+            let mut sc = scenario(&mut u, role);
+            sc.script.clear();
+            sc.after = After::Honest;
+            let mut n = 0;
+            for f in sc.fates.iter_mut() {
+                if *f != Fate::Deliver {
+                    n += 1;
+                    if n > 5 {
+                        *f = Fate::Deliver;
+                    }
+                }
+            }
+            c04::judge(scratch(), &sc, &mut obs)
+        }
+        "term" => {
+            let role = if u.arbitrary().unwrap_or(false) { Role::Sender } else { Role::Receiver };
+            c07::judge(scratch(), &scenario(&mut u, role), &mut obs)
+        }
+        "flow" => {
+            let mut sc = scenario(&mut u, Role::Sender);
+            sc.fates.clear();
+            if sc.handshake {
+                sc.script.insert(0, Sev::Pass);
+            }
+            sc.dally = true;
+            c08::judge(scratch(), &sc, &mut obs)
+        }
         other => panic!("unknown fuzz target {}", other),
     }
 }
@@ -164,6 +194,9 @@ pub fn property_of(target: &str) -> &'static str {
         "window" => "C18",
         "send" => "C01",
         "recv" => "C02",
+        "loss" => "C04",
+        "term" => "C07",
+        "flow" => "C08",
         _ => "?",
     }
 }
